@@ -51,7 +51,7 @@ def main(tier, replay=None):
     exhaustive = True
     for c in cfgs:
         res = tlc(SPEC, "MCCairoCpu", f"MCCairoCpu_{c}.cfg", f"c16_{c}", workers=8,
-                  timeout=3600 if tier == "thorough" else 900, heap="8g")
+                  timeout=3600 if tier == "thorough" else 900, heap=__import__("lib").tlc_heap(8))
         chk.add_tlc(res)
         log(f"[C16] TLC {c}: {res.distinct} distinct states, violated={res.violated} errors={res.errors[:2]} ({res.wall:.0f}s)")
         if res.errors:
